@@ -147,6 +147,11 @@ class TcpConnection(object):
         data = struct.pack('i', len(data)) + data
         self.__writeBuffer += data
         self.__trySendBuffer()
+        if self.__writeBuffer and self.__fileno is not None and self.__state == CONNECTION_STATE.CONNECTED:
+            # What did not fit into the socket goes out when it becomes writable again,
+            # not only when the application happens to send something else.
+            self.__poller.subscribe(self.__fileno, self.__processConnection,
+                                    POLL_EVENT_TYPE.READ | POLL_EVENT_TYPE.WRITE | POLL_EVENT_TYPE.ERROR)
 
     def fileno(self):
         return self.__fileno
